@@ -163,7 +163,15 @@ func VerifC03Pure() {
 	case 4:
 		f = fn(blk(asg("r", node.List{}), asg("i", ilit(0)), whilel(bin("<", nm("i"), ilit(3)), blk(asg("r", bin("+", nm("r"), node.List{Elems: []node.Type{bin("+", nm("i"), nm("a"))}})), asg("i", bin("+", nm("i"), ilit(1))))), nm("r")), "a")
 	default: // reads a local that may never have been assigned
-		f = fn(blk(ifs(bin(">", nm("a"), k), blk(asg("u", nm("a")), asg("w", nm("a")), asg("found", nm("a")))), node.List{Elems: []node.Type{nm("u"), nm("w"), nm("found"), nm("a")}}), "a")
+		// six locals that stay unassigned unless a > k: a frame wide enough to be the first thing that
+		// crosses an allocation boundary of the operand stack
+		names := [...]string{"ua", "ub", "uc", "ud", "ue", "found"}
+		var sets, reads []node.Type
+		for _, n := range names {
+			sets = append(sets, asg(n, nm("a")))
+			reads = append(reads, nm(n))
+		}
+		f = fn(blk(ifs(bin(">", nm("a"), k), blk(sets...)), node.List{Elems: append(reads, nm("a"))}), "a")
 	}
 	vrt.Note("function", Src(f))
 	arg := lit()
